@@ -262,6 +262,30 @@ def sums_case(rng, ctx, kit, laws, a, b, c, has_dagger):
                 a.sum([], c.dom @ a.dom, c.cod @ a.cod))
     laws.eq("empty-sum-absorbs-then", zero >> b, a.sum([], a.dom, b.cod))
     laws.eq("empty-sum-absorbs-then", pre >> zero, a.sum([], pre.dom, a.cod))
+    # sums RETURNED by the operations must behave as sums in a second step
+    derived = [("then", total >> b, [a >> b, a2 >> b])]
+    if has_dagger:
+        derived.append(("dagger", total[::-1], [a[::-1], a2[::-1]]))
+    if len(a.cod) + len(c.cod) <= 6:
+        derived.append(("tensor", total @ c, [a @ c, a2 @ c]))
+    for how, value, terms in derived:
+        tail = kit.rand_diagram(rng, rng.randint(0, 1), dom=value.cod)
+        head = kit.rand_diagram(rng, rng.randint(0, 1), width=2)
+        head = head if head.cod == value.dom else kit.id(value.dom)
+        side = kit.rand_diagram(rng, 1, width=1)
+        laws.eq("derived-sum-then", value >> tail,
+                (terms[0] >> tail) + (terms[1] >> tail), how=how)
+        laws.eq("derived-sum-then", head >> value,
+                (head >> terms[0]) + (head >> terms[1]), how=how)
+        if len(value.cod) + len(side.cod) <= 7 and len(value.dom) + len(side.dom) <= 7:
+            laws.eq("derived-sum-tensor", value @ side,
+                    (terms[0] @ side) + (terms[1] @ side), how=how)
+            laws.eq("derived-sum-tensor", side @ value,
+                    (side @ terms[0]) + (side @ terms[1]), how=how)
+        laws.eq("derived-sum-plus", value + value, value.sum(terms + terms), how=how)
+        if has_dagger:
+            laws.eq("derived-sum-dagger", value[::-1],
+                    terms[0][::-1] + terms[1][::-1], how=how)
     if has_dagger:
         laws.eq("sum-dagger-distributes", total[::-1], a[::-1] + a2[::-1])
         laws.eq("sum-dagger-distributes", zero[::-1], a.sum([], a.cod, a.dom))
